@@ -132,7 +132,10 @@ def oracle(ctx, case, canon, out, calls, n, chunk, key):
         ctx.oracle_fail(key, f"function called with more than chunksize={chunk} points: {calls}", case)
 
 
-def make_model(vec, dims=2):
+def make_model(vec, dims=2, prior_vec=True, uprior_vec=True):
+    """`vec`: the likelihood accepts batches; `prior_vec` / `uprior_vec`: log_prior / log_prior_unit_hypercube accept batches
+    (independently of each other: a non-vectorised log_prior next to the default, vectorised, unit-hypercube prior is the normal
+    situation of a user model — seeded change C10-hA took one flag for the other)"""
     from nessai.model import Model
 
     class M(Model):
@@ -158,6 +161,8 @@ def make_model(vec, dims=2):
 
         def log_prior(self, x):
             # an exactly rounded stand-in "prior" (2*id + 1) so that a mixed-up wrapper is visible
+            if not prior_vec and not (x.ndim == 0 or x.shape == ()):
+                raise TypeError("log_prior is not vectorised")
             if x.ndim == 0 or x.shape == ():
                 self.prior_calls.append([float(x["id"])])
                 return float(x["id"]) * 2.0 + 1.0 + EPS
@@ -166,6 +171,8 @@ def make_model(vec, dims=2):
 
         def log_prior_unit_hypercube(self, x):
             # distinct from log_prior: 5*id + 2 evaluated from the unit-cube coordinate
+            if not uprior_vec and not (x.ndim == 0 or x.shape == ()):
+                raise TypeError("log_prior_unit_hypercube is not vectorised")
             if x.ndim == 0 or x.shape == ():
                 self.uprior_calls.append([float(x["id"]) * 1024.0])
                 return float(x["id"]) * 1024.0 * 5.0 + 2.0 + EPS
@@ -185,15 +192,16 @@ def make_model(vec, dims=2):
     return M()
 
 
-def run_model_layer(n, vec, chunk, pool_n, unit, which, par_prior=True):
+def run_model_layer(n, vec, chunk, pool_n, unit, which, par_prior=True, prior_flags=None):
     """real Model.batch_evaluate_* on live points with ids 0..n-1"""
     from nessai.livepoint import numpy_array_to_live_points
     from nessai.utils.multiprocessing import initialise_pool_variables
-    m = make_model(vec)
+    pv, uv = prior_flags if prior_flags is not None else (True, True)
+    m = make_model(vec, prior_vec=pv, uprior_vec=uv)
     m.likelihood_chunksize = chunk
     m.vectorised_likelihood = vec
-    m.vectorised_prior = vec
-    m.vectorised_prior_unit_hypercube = vec
+    m.vectorised_prior = vec if prior_flags is None else pv
+    m.vectorised_prior_unit_hypercube = vec if prior_flags is None else uv
     m.allow_vectorised = True
     if pool_n is not None:
         m.pool = FakePool(pool_n)
@@ -327,9 +335,28 @@ def correspond(ctx):
                                 impls.append(canon)
                                 cases.append(case)
                                 ctx.case(("model", n, vec, chunk, pool_n, unit, which, par, dt), n >= 1, case if n == 3 else None, kind="Model." + which + ":" + dt)
+    # the two prior functions have their OWN vectorisation flags: every mix, physical and unit-hypercube mode
+    for n in range(M + 1):
+        for pool_n in [None, 3]:
+            for flags in [(False, True), (True, False), (False, False)]:
+                for which, unit in [("prior", False), ("prior", True), ("uprior", False)]:
+                    case = dict(layer="Model." + which, n=n, pool=pool_n, unit=unit, vectorised_prior=flags[0],
+                                vectorised_prior_unit_hypercube=flags[1])
+                    canon, out, calls, delta = run_model_layer(n, True, None, pool_n, unit, which, True, prior_flags=flags)
+                    key = "Model.batch_evaluate_log_" + ("prior" if which == "prior" else "prior_unit_hypercube") + ".mixed-flags"
+                    if out is None:
+                        ctx.oracle_fail(key, f"batch interface raised {canon}: the function was handed a batch although its own "
+                                        "vectorisation flag is False", case)
+                        continue
+                    want = np.array([(5.0 * i + 2.0 + EPS) if which == "uprior" else (2.0 * i + 1.0 + EPS) for i in range(n)])
+                    if not np.array_equal(np.asarray(out, dtype=float).reshape(-1), want):
+                        ctx.oracle_fail(key, f"batch prior differs from pointwise evaluation: {np.asarray(out).tolist()} vs {want.tolist()}", case)
+                    ctx.case(("model-mixed", n, pool_n, flags, which, unit), n >= 2, case if n == 3 and pool_n is None else None,
+                             kind="Model." + which + ":mixed-flags")
     ctx.diff_model(lines, impls, cases)
     reused_buffers(ctx)
     probe_layer(ctx)
+    two_models(ctx)
     if not ctx.quick:
         real_pools(ctx)
 
@@ -462,6 +489,63 @@ def real_pools(ctx):
                         if not np.array_equal(np.asarray(out, dtype=float), x * 3.0 - 7.0 + EPS):
                             ctx.oracle_fail("batch_evaluate_function", "fork pool result differs from pointwise", case)
                         ctx.case(("fork", n, vec, chunk, p), n >= 1, kind="forkpool")
+
+
+def two_models(ctx):
+    """two models in one process: model A evaluates through a USER-SUPPLIED pool prepared as documented
+    (`initialise_pool_variables(A)`, then a thread pool whose workers read the process-wide model); afterwards a second model B
+    gets a pool of its own through `n_pool`.  A's batch interface must keep returning A's values (seeded change C10-hB made
+    `configure_pool(n_pool=…)` overwrite the process-wide model in the parent)."""
+    import multiprocessing.dummy
+    from nessai.livepoint import numpy_array_to_live_points
+    from nessai.model import Model
+    from nessai.utils.multiprocessing import initialise_pool_variables
+
+    def mk(a, b):
+        class M(Model):
+            def __init__(self):
+                self.names = ["id", "y"]
+                self.bounds = {"id": [0.0, 1024.0], "y": [-2.0, 2.0]}
+
+            def log_prior(self, x):
+                return np.atleast_1d(x["id"]).astype(float) * 2.0 + b + EPS
+
+            def log_likelihood(self, x):
+                return np.atleast_1d(x["id"]).astype(float) * a + b + EPS
+        return M()
+
+    for vec in (True, False):
+        A, B = mk(3.0, -7.0), mk(11.0, 5.0)
+        for m in (A, B):
+            m.vectorised_likelihood = vec
+            m.vectorised_prior = True
+        initialise_pool_variables(A)
+        tp = multiprocessing.dummy.Pool(2)
+        case = dict(layer="two-models", vectorised=vec)
+        try:
+            A.configure_pool(pool=tp, n_pool=2)
+            B.configure_pool(n_pool=2)
+            n = 6
+            x = numpy_array_to_live_points(np.stack([np.arange(n, dtype=float), np.zeros(n)], axis=1), A.names)
+            try:
+                out = np.asarray(A.batch_evaluate_log_likelihood(x), dtype=float)
+            except Exception as e:  # noqa
+                ctx.oracle_fail("Model.batch_evaluate_log_likelihood.two-models", f"model A's batch interface raised {_exc(e)}: {e}", case)
+                continue
+            want = np.arange(n, dtype=float) * 3.0 - 7.0 + EPS
+            if not np.array_equal(out, want):
+                ctx.oracle_fail("Model.batch_evaluate_log_likelihood.two-models",
+                                f"model A, evaluating through its own user-supplied pool after a second model was given a pool with "
+                                f"n_pool, returns {out.tolist()} instead of its own pointwise values {want.tolist()}", case)
+            ctx.case(("two-models", vec), True, case, kind="two-models")
+        finally:
+            try:
+                B.close_pool()
+            except Exception:  # noqa
+                pass
+            tp.close()
+            tp.join()
+            initialise_pool_variables(None)
 
 
 def search(ctx):
